@@ -37,6 +37,17 @@ def run_conc(ctx, scenario, mode, cases, drivers=(), seed_offset=0, extra=()):
         # program in a LATER revision (round >= 1); first-round results are never excused
         if kind == 'oracle' and scenario == 'c18' and re.match(r'round [1-9]\d* thread \d+: node \d+ = \d+ want \d+', msg):
             key = 'fix-participant-stale-after-revalidation'
+        # the same finding met by the sequential re-check after a write of the writer scenarios: a stale
+        # VALUE (never a panic / cancellation outcome) of a cyclic program in a revision after the first
+        # (confirmed on the thorough-tier cases 2455 / 3265 / 7574 of c20: they pass with the candidate
+        # repair corpus/C12/candidate-repair-kf2-verify-heads-edges.patch applied)
+        if kind == 'oracle' and scenario == 'c20' and re.match(r'after write \d+: node \d+ = \d+ want \d+$', msg.strip()):
+            try:
+                progtext = open(replay).read().split('--- program')[1].split('--- inputs')[0]
+            except Exception:
+                progtext = ''
+            if re.search(r'^node \d+ fix2? ', progtext, re.M):      # only programs with fixpoint functions
+                key = 'fix-participant-stale-after-revalidation'
         t.failures.append(Failure(k, 'conc %s/%s case %s: %s: %s' % (scenario, mode, case, kind, msg[:300]), replay=replay, key=key))
     if int(m.group(7)) > 0 and not t.failures:
         t.failures.append(Failure('model', 'conc %s reports %s failures without CONC-FAIL lines: %s' % (scenario, m.group(7), out[-600:])))
